@@ -107,10 +107,13 @@ def corpus():
     return cs
 
 
+LABELS = list(range(10)) + [13, 17, 40, 63, 64, 65, 100, 257, 1000]   # non-contiguous, beyond 8 / 16 / 64
+
+
 def _rand_graph(rng, nv_max=7, emax=10):
     while True:
         nv = rng.randint(1, nv_max)
-        nodes = rng.sample(range(10), nv)
+        nodes = rng.sample(LABELS if rng.random() < 0.5 else range(10), nv)
         p = rng.choice([0.3, 0.5, 0.7, 0.9])
         edges = [[a, b] if rng.random() < 0.5 else [b, a]
                  for ai, a in enumerate(nodes) for b in nodes[ai + 1:] if rng.random() < p]
@@ -144,6 +147,63 @@ def _ncg_case(rng, emax=10):
         if rng.random() < 0.3:
             ks.append(rng.choice(ks))
         calls += [["ncg", nodes, edges, ak, i, k] for k in ks]
+    return {"calls": calls}
+
+
+def _big_sparse_case(rng, emax=9):
+    """substrates with 9..24 vertices (labels in shuffled insertion order, non-contiguous): a random tree plus a few
+    chords; the induced subgraph asked about is small enough for the brute-force counter"""
+    nv = rng.randint(9, 24)
+    nodes = rng.sample(range(0, 120), nv)
+    edges = []
+    for j in range(1, nv):
+        edges.append([nodes[j], nodes[rng.randrange(j)]])
+    for _ in range(rng.randint(0, 4)):
+        a, b = rng.sample(nodes, 2)
+        if [a, b] not in edges and [b, a] not in edges:
+            edges.append([a, b])
+    rng.shuffle(edges)
+    calls = []
+    for _ in range(2):
+        for _try in range(30):
+            i = rng.choice(nodes)
+            ak = [v for v in nodes if rng.random() < rng.choice([0.3, 0.6, 1.0])]
+            rng.shuffle(ak)
+            ne = _induced_count(nodes, edges, ak, i)
+            if ne <= emax:
+                break
+        else:
+            continue
+        ks = list(range(0, ne + 2))
+        rng.shuffle(ks)
+        calls += [["ncg", nodes, edges, ak, i, k] for k in ks[:6]]
+    return {"calls": calls}
+
+
+def _two_objects_case(rng, emax=8):
+    """two graph objects alive at once, nearly equal (one edge apart), the same questions interleaved on both"""
+    nodes, edges = _rand_graph(rng, 6, emax - 1)
+    nodes, edges = list(nodes), [list(e) for e in edges]
+    edges2 = [list(e) for e in edges]
+    present = {(min(a, b), max(a, b)) for a, b in edges}
+    cand = [[a, b] for ai, a in enumerate(nodes) for b in nodes[ai + 1:] if (min(a, b), max(a, b)) not in present]
+    if cand and (not edges2 or rng.random() < 0.5):
+        edges2.append(rng.choice(cand))
+    elif edges2:
+        edges2.pop(rng.randrange(len(edges2)))
+    ak = [v for v in nodes if rng.random() < 0.9]
+    i = rng.choice(nodes)
+    calls = []
+    ne = max(_induced_count(nodes, edges, ak, i), _induced_count(nodes, edges2, ak, i))
+    if ne > emax + 1:
+        return {"calls": []}
+    for k in rng.sample(range(0, ne + 2), min(ne + 2, 4)):
+        pair = [["ncg", nodes, edges, ak, i, k, "gA"], ["ncg", nodes, edges2, ak, i, k, "gB"]]
+        if rng.random() < 0.5:
+            pair.reverse()
+        calls += pair
+        if rng.random() < 0.4:
+            calls.append(list(pair[0]))
     return {"calls": calls}
 
 
@@ -200,7 +260,7 @@ def _all_graphs(nv):
 
 def generate(rng, tier):
     thorough = tier == "thorough"
-    nmax = 15 if thorough else 12
+    nmax = 18 if thorough else 12
     # ---- Q: every n fresh (top-down recursion on an empty cache), all k, ascending / descending
     for n in range(0, nmax + 1):
         # thorough: the n = 7 sweep is judged by the checker against brute force (2^21 edge subsets)
@@ -244,12 +304,24 @@ def generate(rng, tier):
     # histories on ONE graph object edited in place between calls (stale caches, damaged inputs)
     for _ in range(150 if thorough else 30):
         yield _ncg_history_case(rng, 10 if thorough else 9)
+    # two nearly equal graph objects alive at once; substrates with 9..24 vertices and large labels
+    for _ in range(80 if thorough else 20):
+        c = _two_objects_case(rng)
+        if c["calls"]:
+            yield c
+    for _ in range(80 if thorough else 20):
+        c = _big_sparse_case(rng, 10 if thorough else 9)
+        if c["calls"]:
+            yield c
     # ---- clique equation
     for tau in range(0, 7):
         yield {"calls": [_clique_call(tau)]}
     yield {"calls": [_clique_call(t) for t in (5, 3, 6, 2, 4, 3)]}
+    # beyond the sizes the exact expectation can be enumerated for: correspondence with the model only
+    yield {"calls": [_clique_call(7)]}
     if thorough:
-        yield {"calls": [_clique_call(7)]}
+        yield {"calls": [_clique_call(8), _clique_call(9)]}
+    yield {"calls": [["cycle", n, X(2), X(1)] for n in ((17, 33, 64, 65) if not thorough else (17, 20, 33, 64, 65, 100, 129))]}
     for _ in range(60 if thorough else 16):
         tau = rng.randint(2, 5)
         atoms = [X(2), X(3), X(4), CONST(1), CONST(0), CONST(2), [[1, [0, 1]], [-1, [0, 0, 1]]], [[1, []], [-1, [1]]]]
@@ -544,15 +616,41 @@ def _check_tree(call, obs, deep=False):
     return None
 
 
+ROW_MIN_N = 8
+
+
+def _rows(case, impl_obs):
+    """n -> [r_0 .. r_s] for the n >= ROW_MIN_N whose Q(n, k) was asked for EVERY k in 0..n(n-1)/2 with one and the
+    same integer answer per k: those are judged by one whole-row checker call (one recurrence table per row)"""
+    seen = {}
+    for c, o in zip(case["calls"], impl_obs):
+        if c[0] == "Q" and c[1] >= ROW_MIN_N and in_domain(c):
+            seen.setdefault(c[1], {}).setdefault(c[2], set()).add(json.dumps(o))
+    rows = {}
+    for n, d in seen.items():
+        if len(d) == tri(n) + 1 and all(len(v) == 1 for v in d.values()):
+            vals = [json.loads(next(iter(d[k]))) for k in range(tri(n) + 1)]
+            if all(v[0] == "v" and len(v) == 2 for v in vals):
+                rows[n] = [v[1] for v in vals]
+    return rows
+
+
 def _check_plan(case, impl_obs):
     uniq = {}
     order = []
     if isinstance(impl_obs, list) and impl_obs and impl_obs[0] == "!exc":
         return uniq, order
+    deep = bool(case.get("deep"))
+    rows = _rows(case, impl_obs)
+    for n in sorted(rows):
+        uniq[("row", n)] = len(order)
+        order.append([5, n, 7 if deep else 6, rows[n]])
     for c, o in zip(case["calls"], impl_obs):
         if not in_domain(c):
             continue
-        t = _check_tree(c, o, bool(case.get("deep")))
+        if c[0] == "Q" and c[1] in rows:
+            continue
+        t = _check_tree(c, o, deep)
         if t is None:
             continue
         k = json.dumps(t)
@@ -587,6 +685,12 @@ def check_verdict(case, impl_obs, raws):
                     f"adjacency order, or the ak / Hs list): the counter and the equations are pure queries")
         if o[0] not in ("v", "p") or (c[0] in ("clique", "cycle")) != (o[0] == "p"):
             return f"call #{j} {_show(c)} returned {str(o)[:200]}, which is not {WHAT[c[0]]}"
+        if c[0] == "Q" and ("row", c[1]) in uniq:
+            raw = raws[uniq[("row", c[1])]]
+            if raw not in (1, 2):
+                return (f"calls Q({c[1]}, k), k = 0..{tri(c[1])}, returned {str(_rows(case, impl_obs)[c[1]])[:300]}: "
+                        f"c16_check says at least one entry is not {WHAT['Q']}")
+            continue
         t = _check_tree(c, o, bool(case.get("deep")))
         if t is None:
             continue
